@@ -1,8 +1,9 @@
 (** C07: composition of all NINE lowering rules (the eight of Proof/LoweringCensusAll.v and
     remove_continue, Model/RemoveContinue.v). *)
-From Coq Require Import ZArith NArith List Bool Lia.
+From Coq Require Import ZArith NArith List Bool Lia Permutation.
 From DL Require Import Lib.Bytes Lua.Syntax Lua.Census Model.Visit Model.Lowering Model.RemoveContinue
-  Proof.LoweringCensusBase Proof.LoweringCensusRules Proof.LoweringCensusAll Proof.RemoveContinue.
+  Proof.LoweringCensusBase Proof.LoweringCensusRules Proof.LoweringCensusAll Proof.RemoveContinue
+  Proof.RemoveContinueScoped.
 Import ListNotations.
 Local Open Scope nat_scope.
 
@@ -88,6 +89,59 @@ Theorem all_lowered9_continue_first : forall rs,
   forall b, continue_in_loops b = true -> lua51_tree (apply_rules (rule_continue :: rs) b) = true.
 Proof.
   intros rs S Cov b Hb. apply (all_lowered9_at [] rs); [intros p []|exact S|exact Cov|exact Hb].
+Qed.
+
+(** every one of the nine rules keeps a tree in the domain of remove_continue *)
+Theorem lowering_rules9_keep_domain : forall p, In p lowering_rules9 ->
+  forall b, continue_in_loops b = true -> continue_in_loops (snd p b) = true.
+Proof.
+  intros p [<-|Hp].
+  - exact remove_continue_output_in_loops.
+  - exact (lowering_rules_keep_domain p Hp).
+Qed.
+
+Lemma apply_keep_domain : forall rs, (forall p, In p rs -> In p lowering_rules9) ->
+  forall b, continue_in_loops b = true -> continue_in_loops (apply_rules rs b) = true.
+Proof.
+  induction rs as [|p rs IH]; intros G b Hb; [exact Hb|].
+  unfold apply_rules. cbn [fold_left]. fold (apply_rules rs (snd p b)).
+  apply IH; [intros q Hq; apply G; right; exact Hq|].
+  apply lowering_rules9_keep_domain; [apply G; left; reflexivity|exact Hb].
+Qed.
+
+Lemma apply_keep_zero : forall rs, (forall p, In p rs -> In p lowering_rules9) ->
+  forall j b, j < 9 -> feature j b = 0%N -> feature j (apply_rules rs b) = 0%N.
+Proof.
+  intros rs G j b Hj Z. apply lowered_feature9; [exact G|exact Hj|left; exact Z].
+Qed.
+
+(** ALL NINE RULES, ANY ORDER, any multiplicity: a list of rules among the nine that contains
+    a rule for each of the nine constructs turns every tree of remove_continue's domain
+    (every valid Luau program) into a Lua 5.1 tree *)
+Theorem all_lowered9 : forall rs,
+  (forall p, In p rs -> In p lowering_rules9) ->
+  (forall j, j < 9 -> In j (map fst rs)) ->
+  forall b, continue_in_loops b = true -> lua51_tree (apply_rules rs b) = true.
+Proof.
+  intros rs G Cov b Hb. apply lua51_tree_iff. intros j Hj.
+  specialize (Cov j Hj). apply in_map_iff in Cov as ([i r] & E & Hin). cbn [fst] in E. subst i.
+  apply in_split in Hin as (rs1 & rs2 & ->). rewrite apply_rules_app.
+  unfold apply_rules at 1. cbn [fold_left snd]. fold (apply_rules rs2 (r (apply_rules rs1 b))).
+  apply apply_keep_zero; [intros p Hp; apply G, in_or_app; right; right; exact Hp|exact Hj|].
+  assert (Hin : In (j, r) lowering_rules9) by (apply G, in_or_app; right; left; reflexivity).
+  apply (proj1 (lowering_rules9_lower (j, r) Hin)).
+  apply apply_keep_domain; [intros p Hp; apply G, in_or_app; left; exact Hp|exact Hb].
+Qed.
+
+(** in particular every permutation of the nine rules (ten entries: remove_interpolated_string
+    is listed with both strategies) *)
+Corollary all_lowered9_permutation : forall rs, Permutation rs lowering_rules9 ->
+  forall b, continue_in_loops b = true -> lua51_tree (apply_rules rs b) = true.
+Proof.
+  intros rs P. apply all_lowered9.
+  - intros p Hp. exact (Permutation_in p P Hp).
+  - intros j Hj. apply (Permutation_in j (Permutation_map fst (Permutation_sym P))).
+    cbn. do 9 (destruct j as [|j]; [tauto|]). lia.
 Qed.
 
 Example all_lowered9_example :
